@@ -25,6 +25,9 @@ CLAIMS = {
     'C05': dict(tech='well-formedness predicate (Obs.tla WellFormedMismatches) evaluated by TLC on the raw, un-abstracted ranges of every recorded list result',
                 text='Uniqueness of (src,dst), no self / ip-ip / empty entries, IP peers form a partition of 0.0.0.0-255.255.255.255 into single ranges, canonical port ranges, all-connections flag <=> three full ranges: '
                      'checked by TLC on every list observation of NetworkPolicy and admin-policy worlds.', ref='6/C05'),
+    'C10': dict(tech='TLA+ reference of Ingress/Route -> Service -> workload -> TCP container ports, intersected with the policy reference for a hypothetical unlabeled pod in an unknown namespace (IngressRef.tla); TLC behaviours with AddService/AddIngress/AddRoute edits replayed on the real list command; trace validation',
+                text='The {ingress-controller} => W lines and blocked-backend warnings of every replayed state (Services with named/numbered ports and targetPorts, Ingress default/rule backends by number or name, Routes with to/alternateBackends/targetPort, '
+                     'workloads with TCP and UDP container ports, NetworkPolicies and admin policies) must equal IngressRef!IngressLine; a known finding (Ingress number matching a targetPort) is reported as such.', ref='6/C10'),
     'C11': dict(tech='TLA+ register machine over connection-set denotations (ConnSetModel.tla); TLC random walks + exhaustive short operation sequences (ConnSet.tla) replayed on real common.ConnectionSet objects through the verif shim; every step validated by TLC (ConnSetTrace.tla)',
                 text='Every step of every explored operation sequence (Make/AddConnection/Union/Intersection/Subtract/Copy on 2-3 registers) must be the set-algebra step on denotations: updated register exact, other registers unchanged, no shared pointers, '
                      'IsEmpty/IsAllConnections/Contains/String/Equal/ContainedIn consistent with denotations, ranges canonical. All sequences of 3 (quick) / 4 (thorough) operations over a 26-operation catalogue are enumerated; longer random walks and seeded sequences over 9 port chunks are sampled.', ref='6/C11',
@@ -40,6 +43,8 @@ CLAIMS = {
                 text='Every case of the enumerated space (8 conflict kinds x sizes x document positions of the conflicting resources x 5 arrangement families of the other priorities, plus control cases without conflict) must be rejected by list and by diff (either side) '
                      'with an error of the right class that names a conflicting resource, a fatal entry and no report; controls must pass. Exhaustive over the enumerated space only.', ref='6/C19',
                 note='Trusted: TLC, Json module; the mapping of error texts to conflict classes in the harness (substring of the tool\'s own error constants). Sizes and arrangement families outside the enumerated space are not covered.'),
+    'C16': dict(tech='Focus events (list with WithFocusWorkload for every workload name, namespace/name, shared names, absent names, ingress-controller) validated by TLC against the filter of the unfocused report of the same world (Obs.tla FocusMismatches)',
+                text='For every replayed world and every candidate W the focused result must be exactly the entries of the unfocused real report whose source or destination matches W, with identical connections; an unknown W gives an empty result, a non-severe warning and no error.', ref='6/C16'),
     'C17': dict(tech='ReExpressWorkload action of Cluster.tla (8 kinds, replicas, bare pods with one owner) with the law "report equal modulo [Kind]" on real reports, plus the per-state peer-set predicate',
                 text='For every re-expression edge the two real reports are equal per abstract workload; in every state the returned peers are exactly one per workload.', ref='6/C17'),
 }
